@@ -175,6 +175,46 @@ theorem individualStats_hide_drops_living (sf : SFlags) (h : sf.individualsHideL
     individualStats sf ps .hide = individualStats sf (ps.filter (fun p => !p.pub.living)) .hide := by
   simp [individualStats, h, nLiving_dead, length_sub_nLiving]
 
+/-- the document with the INDI records of living people removed (links are not followed here: only
+    functions that read the people as a list are stated about it) -/
+def dropLiving (d : DocA) : DocA := { d with people := d.people.filter (fun p => !p.pub.living) }
+
+theorem filter_dead_filter (P : PPerson → Bool) (hP : ∀ p, P p = !p.pub.living) (l : List PPerson) :
+    (l.filter (fun p => !p.pub.living)).filter P = l.filter P := by
+  induction l with
+  | nil => rfl
+  | cons p ps ih =>
+    cases hl : p.pub.living <;> simp [List.filter_cons, hP, hl, ih]
+
+/-- **What a hide-mode site counts.**  Every number of the header and of the statistics that is
+    computed from the individuals — the index letters (which list pages exist), the Surnames badge,
+    the Places badge and card, the Individuals card — is, in hide mode, the number of the document
+    with the living people removed.  The two exceptions are the Individuals badge
+    (`living_count_revealed_by_badge`) and the Events card
+    (`eventStats_counts_living_events_counterexample`). -/
+theorem hide_counts_drop_living (sf : SFlags) (h : sf.individualsHideLiving = true) (d : DocA) (o : Opts) :
+    indexLetters gf (dropLiving d) .hide = indexLetters gf d .hide ∧
+    surnames gf (dropLiving d) .hide = surnames gf d .hide ∧
+    nPlacesOf gf (dropLiving d) .hide o = nPlacesOf gf d .hide o ∧
+    individualStats sf (dropLiving d).people .hide = individualStats sf d.people .hide := by
+  have h1 := gf_facts.1
+  have h2 := gf_facts.2.1
+  have h3 := gf_facts.2.2
+  refine ⟨?_, ?_, ?_, ?_⟩
+  · unfold indexLetters
+    simp only [h3, ↓reduceIte, dropLiving]
+    rw [filter_dead_filter _ (fun _ => rfl)]
+  · unfold surnames
+    simp only [h1, Bool.true_and, dropLiving]
+    rw [filter_dead_filter _ (by intro p; simp [hiddenP])]
+  · have e : placeEvents gf (dropLiving d) .hide = placeEvents gf d .hide := by
+      unfold placeEvents
+      simp only [h2, Bool.true_and, dropLiving]
+      rw [filter_dead_filter _ (by intro p; simp)]
+    have k : placeKeyOf (dropLiving d) = placeKeyOf d := by funext e; simp [placeKeyOf, dropLiving]
+    simp only [nPlacesOf, places, e, k]
+  · exact (individualStats_hide_drops_living sf h d.people).symm
+
 /-- a living person with no events recorded -/
 def eraseEv (p : PPerson) : PPerson :=
   if p.pub.living then { p with st := { p.st with evTags := [] } } else p
